@@ -330,4 +330,6 @@ def run(ctx):
     from rules import families as _fam
     _fam.thread_list(ctx, "C05")
     _fam.registers(ctx, "C05")
-
+    # the stream reaches the caller's file where the directory says, wherever in the destination the dump starts (rules/families.py)
+    from rules import families as _famd
+    _famd.destination(ctx, "C05")
